@@ -54,6 +54,7 @@ theorem split_snoc {α} (l : List α) (x : α) (pre : List α) (n : α) (post : 
 structure AR (df : Defs) (out : List AstNode) : Prop where
   il : df.instrs.length = countI out
   ifresh : ∀ ref, (df.instrs.getD ref default).resolved = false
+  iknown : ∀ ref, (df.instrs.getD ref default).known = false
   ipos : ∀ pre src ref post, out = pre ++ .instr src (some ref) :: post → ref = countI pre
   dl : df.datas.length = countD out
   dfresh : ∀ ref, (df.datas.getD ref default).resolved = false
@@ -81,7 +82,7 @@ theorem assignRef_ar (df : Defs) (out : List AstNode) (n : AstNode) (h : AR df o
       cases x with
       | data sz es refs => exact absurd rfl (hx2 sz es refs)
       | _ => rfl
-    refine ⟨by rw [hi, countI_append, cI, h.il]; rfl, by rw [hi]; exact h.ifresh, ?_, by rw [hd, countD_append, cD, h.dl]; rfl,
+    refine ⟨by rw [hi, countI_append, cI, h.il]; rfl, by rw [hi]; exact h.ifresh, by rw [hi]; exact h.iknown, ?_, by rw [hd, countD_append, cD, h.dl]; rfl,
       by rw [hd]; exact h.dfresh, ?_⟩
     · intro pre src ref post hs
       rcases split_snoc out x pre _ post hs with ⟨post', h1, _⟩ | ⟨_, h2, _⟩
@@ -94,10 +95,15 @@ theorem assignRef_ar (df : Defs) (out : List AstNode) (n : AstNode) (h : AR df o
   cases n with
   | instr src r =>
     simp only [assignRef]
-    refine ⟨by simp [countI_append, countI, h.il], ?_, ?_, by simp only [countD_append, countD]; exact h.dl, h.dfresh, ?_⟩
+    refine ⟨by simp [countI_append, countI, h.il], ?_, ?_, ?_, by simp only [countD_append, countD]; exact h.dl, h.dfresh, ?_⟩
     · intro ref
       by_cases hl : ref < df.instrs.length
       · rw [getD_append_left' _ _ _ _ hl]; exact h.ifresh ref
+      · rw [getD_append_right' _ _ _ _ (Nat.not_lt.mp hl)]
+        cases (ref - df.instrs.length) <;> rfl
+    · intro ref
+      by_cases hl : ref < df.instrs.length
+      · rw [getD_append_left' _ _ _ _ hl]; exact h.iknown ref
       · rw [getD_append_right' _ _ _ _ (Nat.not_lt.mp hl)]
         cases (ref - df.instrs.length) <;> rfl
     · intro pre src' ref post hs
@@ -111,7 +117,7 @@ theorem assignRef_ar (df : Defs) (out : List AstNode) (n : AstNode) (h : AR df o
       · cases h2
   | data sz es refs0 =>
     simp only [assignRef]
-    refine ⟨by simp only [countI_append, countI]; exact h.il, h.ifresh, ?_, by simp [countD_append, countD, h.dl], ?_, ?_⟩
+    refine ⟨by simp only [countI_append, countI]; exact h.il, h.ifresh, h.iknown, ?_, by simp [countD_append, countD, h.dl], ?_, ?_⟩
     · intro pre src ref post hs
       rcases split_snoc out _ pre _ post hs with ⟨post', h1, _⟩ | ⟨_, h2, _⟩
       · exact h.ipos pre src ref post' h1
@@ -142,5 +148,232 @@ theorem assignRef_ar (df : Defs) (out : List AstNode) (n : AstNode) (h : AR df o
   | align e r => simp only [assignRef]; exact neutral _ _ rfl rfl (fun _ _ hh => by cases hh) (fun _ _ _ hh => by cases hh)
   | addr e r => simp only [assignRef]; exact neutral _ _ rfl rfl (fun _ _ hh => by cases hh) (fun _ _ _ hh => by cases hh)
   | _ => simp only [assignRef]; exact neutral _ _ rfl rfl (fun _ _ hh => by cases hh) (fun _ _ _ hh => by cases hh)
+
+theorem foldl_assignRef_ar : ∀ (l : List AstNode) (df : Defs) (out : List AstNode), AR df out →
+    AR (l.foldl assignRef (df, out)).1 (l.foldl assignRef (df, out)).2 := by
+  intro l
+  induction l with
+  | nil => intro df out h; exact h
+  | cons n rest ih =>
+    intro df out h
+    rw [List.foldl_cons]
+    have := assignRef_ar df out n h
+    exact ih _ _ this
+
+theorem ar_init (df : Defs) (hi : df.instrs = []) (hd : df.datas = []) : AR df [] :=
+  ⟨(by rw [hi]; rfl), fun _ => (by rw [hi]; rfl), fun _ => (by rw [hi]; rfl), fun pre _ _ _ hs => (by cases pre <;> cases hs), (by rw [hd]; rfl),
+   fun _ => (by rw [hd]; rfl), fun pre _ _ _ _ hs => (by cases pre <;> cases hs)⟩
+
+/-- two positions of a list: the prefixes are comparable -/
+theorem split_cmp {α} (pre pre' : List α) (a b : α) (post post' : List α) (h : pre ++ a :: post = pre' ++ b :: post') :
+    pre = pre' ∨ (∃ t, pre' = pre ++ a :: t) ∨ (∃ t, pre = pre' ++ b :: t) := by
+  rcases List.append_eq_append_iff.mp h with ⟨t, h1, h2⟩ | ⟨t, h1, h2⟩
+  · cases t with
+    | nil => left; simpa using h1.symm
+    | cons x xs =>
+      right; left
+      injection h2 with h3 h4
+      exact ⟨xs, by rw [h1, h3]⟩
+  · cases t with
+    | nil => left; simpa using h1
+    | cons x xs =>
+      right; right
+      injection h2 with h3 h4
+      exact ⟨xs, by rw [h1, h3]⟩
+
+theorem ar_instrPos (df : Defs) (out : List AstNode) (h : AR df out) (pre : List AstNode) (src : List Char) (ref : Nat)
+    (post pre' : List AstNode) (src' : List Char) (post' : List AstNode)
+    (hs : out = pre ++ .instr src (some ref) :: post) (hs' : out = pre' ++ .instr src' (some ref) :: post') : pre' = pre := by
+  have e1 := h.ipos pre src ref post hs
+  have e2 := h.ipos pre' src' ref post' hs'
+  rcases split_cmp pre pre' _ _ post post' (hs.symm.trans hs') with e | ⟨t, e⟩ | ⟨t, e⟩
+  · exact e.symm
+  · rw [e, countI_append] at e2; simp only [countI] at e2; omega
+  · rw [e, countI_append] at e1; simp only [countI] at e1; omega
+
+theorem ar_dataPos (df : Defs) (out : List AstNode) (h : AR df out) (pre : List AstNode) (sz : Option Nat) (es : List Expr) (refs : List Nat)
+    (post : List AstNode) (k : Nat) (pre' : List AstNode) (sz' : Option Nat) (es' : List Expr) (refs' : List Nat) (post' : List AstNode) (k' : Nat)
+    (hs : out = pre ++ .data sz es refs :: post) (hs' : out = pre' ++ .data sz' es' refs' :: post')
+    (hk : k < es.length) (hk' : k' < es'.length) (hr : refs.getD k 0 = refs'.getD k' 0) :
+    sz' = sz ∧ es'.getD k' default = es.getD k default := by
+  obtain ⟨r1, _⟩ := h.dpos pre sz es refs post hs
+  obtain ⟨r2, _⟩ := h.dpos pre' sz' es' refs' post' hs'
+  have g1 : refs.getD k 0 = k + countD pre := by
+    rw [r1]; simp [List.getD_eq_getElem?_getD, List.getElem?_map, List.getElem?_range hk]
+  have g2 : refs'.getD k' 0 = k' + countD pre' := by
+    rw [r2]; simp [List.getD_eq_getElem?_getD, List.getElem?_map, List.getElem?_range hk']
+  rw [g1, g2] at hr
+  rcases split_cmp pre pre' _ _ post post' (hs.symm.trans hs') with e | ⟨t, e⟩ | ⟨t, e⟩
+  · subst e
+    have := List.append_cancel_left (hs.symm.trans hs')
+    injection this with hn _
+    injection hn with a b c
+    subst a b c
+    have : k = k' := by omega
+    subst this
+    exact ⟨rfl, rfl⟩
+  · rw [e, countD_append] at hr; simp only [countD] at hr; omega
+  · rw [e, countD_append] at hr; simp only [countD] at hr; omega
+
+/-! ## `match_all` -/
+
+/-- the analysis of a match reads a state only through the rule definitions and the `known` flags -/
+theorem matchKnown_congr (d : Decls) (a b : Defs) (hr : b.ruledefs = a.ruledefs) (hk : ∀ r, (b.sym r).known = (a.sym r).known)
+    (sc : List String) : ∀ fuel, matchKnown d b sc fuel = matchKnown d a sc fuel ∧ matchKnownArgs d b sc fuel = matchKnownArgs d a sc fuel := by
+  have hq : matchQv d b sc = matchQv d a sc := by
+    funext level path
+    simp only [matchQv, hk]
+  have hp : matchP0 d b sc = matchP0 d a sc := by simp only [matchP0, hq]
+  intro fuel
+  induction fuel with
+  | zero =>
+    refine ⟨?_, ?_⟩
+    · funext m; simp only [matchKnown]
+    · funext rule args i pa p; simp only [matchKnownArgs]
+  | succ f ih =>
+    refine ⟨?_, ?_⟩
+    · funext m; simp only [matchKnown, hr, hp, ih.2]
+    · funext rule args i pa p
+      cases args with
+      | nil => simp only [matchKnownArgs]
+      | cons x rest => simp only [matchKnownArgs, ih.1, ih.2]
+
+/-- the step of `match_all` -/
+def matchStep (opts : Opts) (d : Decls) (acc : Defs × List String × List String) (n : AstNode) : Defs × List String × List String :=
+  let (defs, symCtx, rep) := acc
+  match n with
+  | .instr src (some r) =>
+    let ms := matchInstr opts.optMatcher defs.ruledefs src
+    if ms.isEmpty then (defs, symCtx, rep ++ ["no match found for instruction"])
+    else
+      let infos : List MatchInfo := ms.map fun m =>
+        ⟨m, matchKnown d defs symCtx 64 m, (matchStaticSize defs 64 m).getD 0⟩
+      let largest := infos.foldl (fun mx i => if i.size > mx then i.size else mx) 0
+      let ins : InstrDef := { cands := infos, known := infos.all (·.known), encoding := ⟨0, some largest⟩ }
+      ({ defs with instrs := defs.instrs.set r ins }, symCtx, rep)
+  | .symbol _ _ _ _ (some r) => (defs, (d.symbols.decls.getD r default).ctx, rep)
+  | _ => acc
+
+theorem matchAll_eq (opts : Opts) (d : Decls) (defs : Defs) (nodes : List AstNode) :
+    matchAll opts d defs nodes = ((nodes.foldl (matchStep opts d) (defs, [], [])).1, (nodes.foldl (matchStep opts d) (defs, [], [])).2.2) := by
+  unfold matchAll
+  have : (fun (acc : Defs × List String × List String) n =>
+      match acc with
+      | (defs, symCtx, rep) =>
+        match n with
+        | .instr src (some r) =>
+          let ms := matchInstr opts.optMatcher defs.ruledefs src
+          if ms.isEmpty then (defs, symCtx, rep ++ ["no match found for instruction"])
+          else
+            let infos : List MatchInfo := ms.map fun m =>
+              ⟨m, matchKnown d defs symCtx 64 m, (matchStaticSize defs 64 m).getD 0⟩
+            let largest := infos.foldl (fun mx i => if i.size > mx then i.size else mx) 0
+            let ins : InstrDef := { cands := infos, known := infos.all (·.known), encoding := ⟨0, some largest⟩ }
+            ({ defs with instrs := defs.instrs.set r ins }, symCtx, rep)
+        | .symbol _ _ _ _ (some r) => (defs, (d.symbols.decls.getD r default).ctx, rep)
+        | _ => acc) = matchStep opts d := by
+    funext acc n; rfl
+  simp only [this]
+  rfl
+
+/-- what `match_all` maintains after having processed the prefix `pre` (entered with state `D`) -/
+structure MInv (st : Static) (D : Defs) (pre : List AstNode) (acc : Defs × List String × List String) : Prop where
+  syms : acc.1.symbols = D.symbols
+  rd : acc.1.ruledefs = D.ruledefs
+  datas : acc.1.datas = D.datas
+  fresh : ∀ ref, (acc.1.instrs.getD ref default).resolved = false
+  sc : acc.2.1 = ctxAfter st [] pre
+  later : ∀ ref, countI pre ≤ ref → acc.1.instrs.getD ref default = D.instrs.getD ref default
+  known : ∀ pre1 src ref post1, pre = pre1 ++ .instr src (some ref) :: post1 → (acc.1.instrs.getD ref default).known = true →
+    ∀ c ∈ (acc.1.instrs.getD ref default).cands, matchKnown st.decls D (ctxAfter st [] pre1) 64 c.m = true
+
+theorem matchStep_inv (opts : Opts) (st : Static) (D : Defs) (nodes : List AstNode) (har : AR D nodes)
+    (pre : List AstNode) (n : AstNode) (post : List AstNode) (hsplit : nodes = pre ++ n :: post)
+    (acc : Defs × List String × List String) (h : MInv st D pre acc) : MInv st D (pre ++ [n]) (matchStep opts st.decls acc n) := by
+  obtain ⟨defs, symCtx, rep⟩ := acc
+  have hsc : symCtx = ctxAfter st [] pre := h.sc
+  -- nodes that are neither instructions with a reference nor symbols with one leave the state alone
+  have neutral : (∀ src r, n ≠ .instr src (some r)) → stepCtx st symCtx n = symCtx → MInv st D (pre ++ [n]) (defs, symCtx, rep) := by
+    intro hx hctx
+    have cI : countI [n] = 0 := by
+      cases n with
+      | instr src r => cases r with | none => rfl | some r => exact absurd rfl (hx src r)
+      | _ => rfl
+    refine ⟨h.syms, h.rd, h.datas, h.fresh, ?_, fun ref hr => h.later ref (by rw [countI_append, cI] at hr; omega), ?_⟩
+    · show symCtx = ctxAfter st [] (pre ++ [n])
+      rw [ctxAfter_snoc, ← hsc, hctx]
+    · intro pre1 src ref post1 hs
+      rcases split_snoc pre n pre1 _ post1 hs with ⟨post', h1, _⟩ | ⟨_, h2, _⟩
+      · exact h.known pre1 src ref post' h1
+      · exact absurd h2.symm (hx src ref)
+  cases n with
+  | instr src r =>
+    cases r with
+    | none => simp only [matchStep]; exact neutral (fun _ _ hh => by cases hh) rfl
+    | some r =>
+      have hr : r = countI pre := har.ipos pre src r post hsplit
+      simp only [matchStep]
+      split
+      · -- no match: only a message is added
+        refine ⟨h.syms, h.rd, h.datas, h.fresh, ?_, fun ref hle => h.later ref (by rw [countI_append] at hle; simp only [countI] at hle; omega), ?_⟩
+        · show symCtx = ctxAfter st [] (pre ++ [.instr src (some r)])
+          rw [ctxAfter_snoc, ← hsc]; rfl
+        · intro pre1 src' ref post1 hs hk
+          rcases split_snoc pre _ pre1 _ post1 hs with ⟨post', h1, _⟩ | ⟨h1, h2, _⟩
+          · exact h.known pre1 src' ref post' h1 hk
+          · injection h2 with _ h3; injection h3 with h3
+            subst h3
+            have := h.later ref (by omega)
+            rw [this] at hk
+            -- the entry is still the one `define_remaining` made: not flagged
+            rw [har.iknown ref] at hk; cases hk
+      · rename_i hne
+        have hnodes : ∀ pre1 src1 ref1 post1, pre = pre1 ++ .instr src1 (some ref1) :: post1 → ref1 ≠ r := by
+          intro pre1 src1 ref1 post1 hs1
+          have := har.ipos pre1 src1 ref1 (post1 ++ .instr src (some r) :: post) (by rw [hsplit, hs1]; simp)
+          rw [this, hr, hs1, countI_append]; simp only [countI]; omega
+        refine ⟨h.syms, h.rd, h.datas, fun ref => ?_, ?_, fun ref hle => ?_, ?_⟩
+        · rcases getD_set_eq_or defs.instrs r ref _ default with h1 | ⟨_, h1⟩
+          · simp only; rw [h1]; exact h.fresh ref
+          · simp only; rw [h1]
+        · show symCtx = ctxAfter st [] (pre ++ [.instr src (some r)])
+          rw [ctxAfter_snoc, ← hsc]; rfl
+        · have hne2 : r ≠ ref := by
+            rw [countI_append] at hle; simp only [countI] at hle; omega
+          simp only
+          rw [getD_set_ne _ _ _ _ _ hne2]
+          exact h.later ref (by rw [countI_append] at hle; simp only [countI] at hle; omega)
+        · intro pre1 src' ref post1 hs hk c hc
+          rcases split_snoc pre _ pre1 _ post1 hs with ⟨post', h1, _⟩ | ⟨h1, h2, _⟩
+          · have hne2 : r ≠ ref := (hnodes pre1 src' ref post' h1).symm
+            simp only at hk hc
+            rw [getD_set_ne _ _ _ _ _ hne2] at hk hc
+            exact h.known pre1 src' ref post' h1 hk c hc
+          · injection h2 with _ h3; injection h3 with h3
+            subst h3 h1
+            simp only at hk hc
+            rcases getD_set_eq_or defs.instrs ref ref _ default with h4 | ⟨_, h4⟩
+            · rw [h4] at hk
+              rw [h.later ref (by omega), har.iknown ref] at hk; cases hk
+            · rw [h4] at hk hc
+              simp only at hk hc
+              obtain ⟨m, _, rfl⟩ := List.mem_map.mp hc
+              have hall := List.all_eq_true.mp hk _ hc
+              simp only at hall ⊢
+              have hcg := (matchKnown_congr st.decls D defs h.rd (fun r' => by rw [sym_of_symbols_eq h.syms r']) symCtx 64).1
+              rw [← hsc, ← hcg]; exact hall
+  | symbol l nm kd ne r =>
+    cases r with
+    | none => simp only [matchStep]; exact neutral (fun _ _ hh => by cases hh) rfl
+    | some r =>
+      simp only [matchStep]
+      refine ⟨h.syms, h.rd, h.datas, h.fresh, ?_, fun ref hle => h.later ref (by rw [countI_append] at hle; simp only [countI] at hle; omega), ?_⟩
+      · show (st.decls.symbols.decls.getD r default).ctx = ctxAfter st [] (pre ++ [.symbol l nm kd ne (some r)])
+        rw [ctxAfter_snoc]; rfl
+      · intro pre1 src ref post1 hs
+        rcases split_snoc pre _ pre1 _ post1 hs with ⟨post', h1, _⟩ | ⟨_, h2, _⟩
+        · exact h.known pre1 src ref post' h1
+        · cases h2
+  | _ => simp only [matchStep]; exact neutral (fun _ _ hh => by cases hh) rfl
 
 end Casm
